@@ -3,6 +3,8 @@
 Lattice explorer over (site lat/lon/alt) x (start instant, second by second) x (step) x (elapsed k*step) through the
 real configuration -> dynamicsFactory -> Terrestrial -> SensingAgent path, plus real truth-only Scenario runs (every
 epoch, TruthEphemeris rows), Terrestrial.propagate with arbitrary (t0, t1), sensors added mid-run and imported states.
+Every family is also run on the calendar lattice (31 Jan / February / 29 Feb / 1 Mar of leap and common years), the
+scenario runs check the angle turned about the pole per step, and a sweep visits every day of a leap and a common year.
 """
 from __future__ import annotations
 
@@ -21,7 +23,7 @@ from resonaate.data.ephemeris import TruthEphemeris  # noqa: E402
 from resonaate.dynamics import dynamicsFactory  # noqa: E402
 from resonaate.dynamics.terrestrial import Terrestrial  # noqa: E402
 from resonaate.parallel.agent_propagation import PropagateRegistration, asyncPropagate  # noqa: E402
-from resonaate.physics.time.conversions import getTargetJulianDate  # noqa: E402
+from resonaate.physics.time.conversions import dayOfYear, getTargetJulianDate  # noqa: E402
 from resonaate.physics.time.stardate import ScenarioTime, datetimeToJulianDate  # noqa: E402
 from resonaate.physics.transforms.methods import eci2ecef  # noqa: E402
 from resonaate.scenario.clock import ScenarioClock  # noqa: E402
@@ -42,9 +44,19 @@ RULE = (
     "closed form at the true UTC datetime (python datetime arithmetic). scenario: real truth-only Scenario runs "
     "(propagateTo) audited at every epoch and in every TruthEphemeris row. propagate: Terrestrial.propagate with "
     "arbitrary (t0, t1). midrun: sensors added while the clock is not at 0. import: states imported into a "
-    "SensingAgent. non-trivial = start second != 0, or the elapsed time crosses midnight, or (propagate) t0 != 0, or "
-    "(midrun/import) the agent is created/updated away from the scenario start; distinct by construction (lattice "
-    "points)."
+    "SensingAgent. calendar lattice (both tiers): EVERY family above (direct with the corner sites, propagate, scenario, "
+    "midrun, midrun_event, import) is also started at each instant of {31 Jan 23:59:30, 1 Feb 00:00:00, 1 Feb 00:00:30, "
+    "15 Feb 12:00:00, 28 Feb 23:59:30, [29 Feb 00:00:00, 12:00:00, 23:59:30], 1 Mar 00:00:00, 1 Mar 00:00:30} of the "
+    "leap years 2016 and 2020 and of a common year (control; thorough: all common years of the table); real scenarios "
+    "are run through the 31 Jan, 28 Feb and 29 Feb midnights (steps 2/60/300 s) and through the whole of February "
+    "(31 Jan 21:00:30 -> 2 Mar) and the angle each site turns about the pole of date between consecutive epochs / "
+    "TruthEphemeris rows is compared with the independent sidereal-angle difference (scenario/rotation_per_step, every "
+    "scenario run). calendar sweep: for every day of the listed leap and common years Terrestrial.propagate is audited "
+    "at 00:00:00 (reached across the preceding midnight), 12:00:00 and 23:59:59, and the library's day-of-year is "
+    "compared with ordinal calendar arithmetic (also for every day of 1900, 2000, 2024 and 2100: century rule). "
+    "non-trivial = start second != 0, or the elapsed time crosses midnight, or (propagate) t0 != 0, or "
+    "(midrun/import) the agent is created/updated away from the scenario start, or the audited instant lies in the "
+    "leap-day window 31 Jan .. 1 Mar; distinct by construction (lattice points)."
 )
 ASSUMPTIONS = [
     "python datetime arithmetic gives the true UTC instant of start + elapsed (no leap-second insertion, as the library)",
@@ -56,6 +68,8 @@ ASSUMPTIONS = [
     "reference ellipsoid a=6378.1363 km, e=0.081819221456 (own literals)",
     "ecef2lla (used by SensingAgent.lla_state) is C04's subject; lla_state is only required to map back onto the site "
     "within the property's metre",
+    "calendar: python's proleptic Gregorian date.toordinal() is the reference for the day of year; the reference sidereal "
+    "angle is computed from days since J2000 by ordinal arithmetic (no day-of-year, no month table)",
 ]
 EXPECT_MIN_NONTRIVIAL = 5000
 
@@ -74,8 +88,21 @@ TOL_VEL_STRICT_KMS = 1.0e-10
 TOL_JD_DAY = 2.0e-9  # double-precision Julian date resolution near 2.45e6 is 4.7e-10 day (as in C05)
 TOL_IMPORT_TIME_S = 1.0e-3  # JD resolution 4e-5 s on the imported epoch
 
+# day of year: the library adds hour/24 + minute/1440 + second/86400 to an integer <= 366 in doubles: rounding < 1e-12 day;
+# the smallest calendar defect is one whole day.
+TOL_DOY_DAY = 1.0e-9
+# angle turned about the pole between two consecutive epochs: each end point may be a metre off (the property's bound),
+# so 2 m / (distance from the rotation axis); measured noise is the position noise (1e-10 km) over the same arm.  A calendar
+# slip turns the site by one day of sidereal drift, 2 pi * 0.0027379 = 1.72e-2 rad (108 km at the equator, 190 m at 89.9 deg).
+ONE_DAY_DRIFT_RAD = 2.0 * math.pi * (fr.SIDEREAL_REV_PER_DAY - 1.0)
+
 R_EARTH = 6378.1363
 ECC2 = 0.081819221456**2
+
+LEAP_YEARS = [2016, 2020]  # the leap years for which the EOP table has February
+CONTROL_YEARS_Q = [2019]
+CONTROL_YEARS_T = [2015, 2017, 2018, 2019, 2021, 2022]
+DOY_ONLY_YEARS = [1900, 2000, 2024, 2100]  # outside the EOP table: day-of-year against the calendar only (century rule)
 
 LATS = [-89.9, -45.0, 0.0, 0.001, 45.0, 70.37, 89.9]
 LONS = [-180.0, -90.0, 0.0, 31.13, 179.99]
@@ -268,6 +295,119 @@ def audit_agent_views(res, sub, case, agent, dt, elapsed, site, item, *, nontriv
     res.observe(lla, float(agent.time))
 
 
+def _site_azimuth(eci, ins):
+    """(right ascension of the site in the true-of-date frame of its own instant, distance from the rotation axis)."""
+    r_tod = ins.fk5.pn.T @ np.asarray(eci, dtype=float)[:3]
+    return math.atan2(r_tod[1], r_tod[0]), math.hypot(r_tod[0], r_tod[1])
+
+
+def _drift_label(err_rad):
+    """Name an angular displacement about the pole (for violation signatures only)."""
+    for days in (1, 2):
+        for sign, word in ((1.0, "ahead"), (-1.0, "behind")):
+            if abs(err_rad - sign * days * ONE_DAY_DRIFT_RAD) < 0.02 * ONE_DAY_DRIFT_RAD:
+                return f"{days}_day_of_sidereal_drift_{word}"
+    return "other"
+
+
+def audit_rotation(res, sub, case, track, item):
+    """Between consecutive epochs the site must turn about the pole of date by the sidereal-angle difference.
+
+    ``track`` = [(true UTC datetime, reported inertial state)].  The right ascension of the site is taken in the true-of-date
+    frame of each epoch (independent precession/nutation), so the difference is the Earth rotation angle alone; the expected
+    value is the difference of the independent reference's apparent sidereal angle (days since J2000 by ordinal arithmetic,
+    UT1-UTC of the day), which over a step is the sidereal rate times the step (+ the tabulated UT1 jump at a midnight)."""
+    prev = None
+    for dt, eci in track:
+        eci = np.asarray(eci, dtype=float).reshape(6)
+        if not np.all(np.isfinite(eci)):
+            prev = None
+            continue
+        ins = instant(dt)
+        az, arm = _site_azimuth(eci, ins)
+        if prev is not None:
+            p_dt, p_az, p_arm, p_gast = prev
+            turned = fr.angle_diff(az, p_az)
+            want = fr.angle_diff(ins.fk5.gast, p_gast)
+            err = fr.angle_diff(turned, want)
+            tol = 2.0 * TOL_POS_KM / min(arm, p_arm)
+            ok = abs(err) < tol
+            dt_s = (dt - p_dt).total_seconds()
+            res.case(
+                f"{sub}/rotation_per_step",
+                {**case, "from": p_dt.isoformat(), "to": dt.isoformat()},
+                ok,
+                nontrivial=p_dt.date() != dt.date() or _in_leap_window(dt),
+                signature=f"C11/{sub}/rotation_per_step/{'ok' if ok else _drift_label(err)}",
+                observed={"turned_rad": turned, "error_rad": err, "error_km": err * arm},
+                expected={"turned_rad": want, "sidereal_rate_times_dt_rad": fr.angle_diff(
+                    2.0 * math.pi * fr.SIDEREAL_REV_PER_DAY * dt_s / 86400.0, 0.0), "tol_rad": tol},
+                outcome="sidereal_rate" if ok else "jump",
+                item=item,
+            )
+            res.observe(turned)
+        prev = (dt, az, arm, ins.fk5.gast)
+
+
+# ------------------------------------------------------------------------------------------------ calendar sweep
+def _run_calendar(res, item):
+    """Every day of one month (month 0: of the whole year, day-of-year only): the library's day of year against ordinal
+    calendar arithmetic, and (with_states) Terrestrial.propagate audited at 00:00:00 - reached from 23:59:00 of the day
+    before, i.e. across every month boundary -, 12:00:00 and 23:59:59 of the day."""
+    _, year, month, with_states = item
+    months = range(1, 13) if month == 0 else [month]
+    for mo in months:
+        first = date(year, mo, 1)
+        n_days = ((date(year + 1, 1, 1) if mo == 12 else date(year, mo + 1, 1)) - first).days
+        for day in range(1, n_days + 1):
+            for hh, mm, ss in ((0, 0, 0), (12, 0, 0), (23, 59, 59)):
+                dt = datetime(year, mo, day, hh, mm, ss)
+                case = {"year": year, "month": mo, "day": day, "time": f"{hh:02d}:{mm:02d}:{ss:02d}"}
+                want = (dt.toordinal() - date(year, 1, 1).toordinal() + 1) + (hh * 3600 + mm * 60 + ss) / 86400.0
+                ok, got = _guard(res, "calendar/day_of_year", case, item, dayOfYear, year, mo, day, hh, mm, ss)
+                if not ok:
+                    continue
+                got = float(got)
+                good = abs(got - want) < TOL_DOY_DAY
+                label = "ok"
+                if not good:
+                    label = f"{'leap' if _is_leap(year) else 'common'}_year/month_{mo:02d}/off_by_{got - want:+.0f}"
+                res.case(
+                    "calendar/day_of_year",
+                    case,
+                    good,
+                    nontrivial=True,
+                    signature=f"C11/calendar/day_of_year/{label}",
+                    observed={"day_of_year": got},
+                    expected={"day_of_year": want, "tol_day": TOL_DOY_DAY},
+                    outcome="matches_calendar" if good else "off",
+                    item=item,
+                )
+                res.observe(got)
+            if not with_states:
+                continue
+            eve = datetime(year, mo, day) - timedelta(seconds=60)  # 23:59:00 of the day before
+            if eve.date() < EOP_FIRST:
+                eve = datetime(year, mo, day)
+            off = (datetime(year, mo, day) - eve).total_seconds()
+            jd0 = datetimeToJulianDate(eve)
+            for site in MIDRUN_SITES:
+                dyn = Terrestrial(jd0, np.concatenate((site_ecef(*site), np.zeros(3))))
+                prev = np.array([1.0, -2.0, 3.0, 0.1, 0.2, -0.3])
+                t_prev = 0.0
+                for t1 in (off, off + 43200.0, off + 86399.0):
+                    if t1 == 0.0:
+                        t1 = 0.5  # first day of the table: no day before; audit 00:00:00.5 instead
+                    dt = eve + timedelta(seconds=t1)
+                    case = {"lat": site[0], "lon": site[1], "alt": site[2], "start": eve.isoformat(), "t0": t_prev, "t1": t1,
+                            "year": year, "month": mo, "day": day}
+                    ok, out = _guard(res, "calendar", case, item, dyn.propagate, ScenarioTime(t_prev), ScenarioTime(t1), prev)
+                    if not ok:
+                        continue
+                    audit_state(res, "calendar", case, out, dt, site, item, nontrivial=True, step=0)
+                    prev, t_prev = out, t1
+
+
 # ------------------------------------------------------------------------------------------------ lattice
 def _sites(seed, full=True):
     sites = [(la, lo, al) for la in LATS for lo in LONS for al in ALTS]
@@ -309,6 +449,53 @@ def _minutes(tier, seed):
             _seed_minute(seed, 2),
         ]
     return out
+
+
+def _is_leap(year):
+    return date(year, 3, 1).toordinal() - date(year, 2, 1).toordinal() == 29
+
+
+def _calendar_years(tier):
+    return sorted(LEAP_YEARS + (CONTROL_YEARS_T if tier == "thorough" else CONTROL_YEARS_Q))
+
+
+def _calendar_instants(tier):
+    """Start instants around the leap day: both sides of the 31 Jan, 28 Feb, 29 Feb midnights and mid-February."""
+    out = []
+    for y in _calendar_years(tier):
+        out += [datetime(y, 1, 31, 23, 59, 30), datetime(y, 2, 1, 0, 0, 0), datetime(y, 2, 1, 0, 0, 30),
+                datetime(y, 2, 15, 12, 0, 0), datetime(y, 2, 28, 23, 59, 30)]
+        if _is_leap(y):
+            out += [datetime(y, 2, 29, 0, 0, 0), datetime(y, 2, 29, 12, 0, 0), datetime(y, 2, 29, 23, 59, 30)]
+        out += [datetime(y, 3, 1, 0, 0, 0), datetime(y, 3, 1, 0, 0, 30)]
+    return out
+
+
+def _in_leap_window(dt):
+    """31 Jan .. 1 Mar: the days on which a leap-day / month-table slip of the day-of-year arithmetic can show."""
+    return dt.month == 2 or (dt.month, dt.day) in ((1, 31), (3, 1))
+
+
+def _calendar_scenario_cases(tier):
+    """Real Scenario runs through the midnights that end 31 Jan, 28 Feb and (leap years) 29 Feb, and through all February."""
+    out = []
+    for y in _calendar_years(tier):
+        eves = [datetime(y, 1, 31), datetime(y, 2, 28)] + ([datetime(y, 2, 29)] if _is_leap(y) else [])
+        for eve in eves:
+            out.append((eve.replace(hour=23, minute=50, second=30), 300, 6))
+            out.append((eve.replace(hour=23, minute=50, second=30), 60, 20))
+            out.append((eve.replace(hour=23, minute=59, second=30), 2, 45))
+    # the whole month: 31 Jan 21:00:30 -> 2 Mar 00:00:30, an epoch 30 s after every midnight of February
+    out.append((datetime(2020, 1, 31, 21, 0, 30), 10800, 241))
+    if tier == "thorough":
+        out.append((datetime(2016, 1, 31, 21, 0, 30), 10800, 241))
+        out.append((datetime(2019, 1, 31, 21, 0, 30), 10800, 233))
+        out.append((datetime(2020, 1, 31, 23, 30, 0), 3600, 722))
+    return out
+
+
+def _sweep_years(tier):
+    return _calendar_years(tier) if tier == "quick" else list(range(2014, 2022))
 
 
 def _ks(step):
@@ -376,7 +563,7 @@ def items(tier, seed):
     # longest items (day-long scenario runs) early so that the pool drains evenly; item 0 stays a cheap one because the
     # runner replays it for the determinism self-check
     out = direct[:1]
-    for st, step, n in sorted(_scenario_cases(tier, seed), key=lambda c: -c[2]):
+    for st, step, n in sorted(_scenario_cases(tier, seed) + _calendar_scenario_cases(tier), key=lambda c: -c[2]):
         out.append(("scenario", st.isoformat(), step, n, seed))
     out += direct[1:]
     for minute in _minutes(tier, seed):
@@ -387,6 +574,20 @@ def items(tier, seed):
             out.append(("midrun_event", st.isoformat(), step, seed))
     for st in (datetime(2016, 12, 31, 23, 59, 37), _seed_minute(seed, 0) + timedelta(seconds=59)):
         out.append(("import", st.isoformat(), seed))
+    # ---- calendar lattice: every family at every instant around the leap day
+    for st in _calendar_instants(tier):
+        minute = st.replace(second=0)
+        for step in _steps(tier):
+            out.append(("direct", minute.isoformat(), [st.second], step, seed, "corner"))
+        out.append(("propagate", minute.isoformat(), seed, [st.second]))
+        out.append(("midrun", st.isoformat(), 60, seed))
+        out.append(("midrun_event", st.isoformat(), 60, seed))
+        out.append(("import", st.isoformat(), seed))
+    for year in _sweep_years(tier):
+        for month in range(1, 13):
+            out.append(("calendar", year, month, 1))
+    for year in DOY_ONLY_YEARS:
+        out.append(("calendar", year, 0, 0))
     return out
 
 
@@ -400,7 +601,18 @@ def bounds(tier, seed):
         "elapsed_steps_k": {str(s): _ks(s) for s in _steps(tier)},
         "scenario_runs": [(st.isoformat(), step, n) for st, step, n in _scenario_cases(tier, seed)],
         "scenario_sites": _sites(seed, full=False),
-        "tolerances": {"position_km": TOL_POS_KM, "velocity_kms": TOL_VEL_KMS, "velocity_rate_lod_kms": TOL_VEL_STRICT_KMS},
+        "calendar_lattice": {
+            "years": {"leap": LEAP_YEARS, "common": [y for y in _calendar_years(tier) if not _is_leap(y)]},
+            "instants": [d.isoformat() for d in _calendar_instants(tier)],
+            "families": "direct (corner sites, every step of steps_s), propagate, midrun (60 s), midrun_event (60 s), import",
+            "scenario_runs": [(st.isoformat(), step, n) for st, step, n in _calendar_scenario_cases(tier)],
+            "sweep_every_day_of_years": _sweep_years(tier),
+            "sweep_instants_per_day": ["00:00:00 (from 23:59:00 of the day before)", "12:00:00", "23:59:59"],
+            "sweep_sites": MIDRUN_SITES,
+            "day_of_year_only_years": DOY_ONLY_YEARS,
+        },
+        "tolerances": {"position_km": TOL_POS_KM, "velocity_kms": TOL_VEL_KMS, "velocity_rate_lod_kms": TOL_VEL_STRICT_KMS,
+                       "day_of_year_day": TOL_DOY_DAY, "rotation_per_step_rad": "2 * position_km / distance from the axis"},
         "eop_table": [EOP_FIRST.isoformat(), EOP_LAST.isoformat()],
     }
 
@@ -480,7 +692,7 @@ def _run_direct(res, item):
         for k in ks:
             elapsed = k * step
             dt = start + timedelta(seconds=elapsed)
-            nontriv = sec != 0 or _crosses_midnight(start, elapsed)
+            nontriv = sec != 0 or _crosses_midnight(start, elapsed) or _in_leap_window(dt)
             for agent, site in agents:
                 case = {"lat": site[0], "lon": site[1], "alt": site[2], "start": start.isoformat(), "second": sec,
                         "step": step, "k": k, "elapsed": elapsed}
@@ -497,10 +709,12 @@ def _run_direct(res, item):
 
 # ------------------------------------------------------------------------------------------------ Terrestrial.propagate(t0, t1)
 def _run_propagate(res, item):
-    _, minute_iso, seed = item
+    _, minute_iso, seed = item[:3]
     minute = datetime.fromisoformat(minute_iso)
     sites = _sites(seed, full=False)
     secs = sorted({0, 1, 29, 59, 1 + (seed * 17 + 36) % 58})
+    if len(item) > 3:  # calendar lattice: exactly the listed start seconds
+        secs = [int(x) for x in item[3]]
     pairs = [(0, 60), (60, 120), (0, 120), (7, 13), (13, 86407), (7, 86407), (0, 0.5), (0.5, 86400.25), (86340, 86460),
              (3599, 3600), (1000000, 1000001), (250000, 259200.0), (59, 61)]
     garbage = np.array([1.0, -2.0, 3.0, 0.1, 0.2, -0.3])
@@ -520,7 +734,7 @@ def _run_propagate(res, item):
                     continue
                 memo[t1] = out
                 dt = start + timedelta(seconds=t1)
-                nontriv = t0 != 0
+                nontriv = t0 != 0 or _in_leap_window(dt)
                 audit_state(res, "propagate", case, out, dt, site, item, nontrivial=nontriv, step=0)
                 ok, one_call = _guard(res, "propagate", case, item, dyn.propagate, ScenarioTime(0), ScenarioTime(t1), garbage)
                 if not ok:
@@ -588,11 +802,15 @@ def _run_scenario(res, item):
 
     for clock_t, per_agent in log:
         dt = start + timedelta(seconds=clock_t)
-        nontriv = start.second != 0 or _crosses_midnight(start, clock_t)
+        nontriv = start.second != 0 or _crosses_midnight(start, clock_t) or _in_leap_window(dt)
         for site, (a_time, eci, ecef, lla, dte) in zip(sites, per_agent):
             case = {**base, "lat": site[0], "lon": site[1], "alt": site[2], "elapsed": clock_t}
             audit_state(res, "scenario", case, eci, dt, site, item, nontrivial=nontriv, step=step)
             audit_agent_views(res, "scenario", case, _View(a_time, ecef, lla, dte), dt, clock_t, site, item, nontrivial=nontriv)
+    # angle turned about the pole between consecutive epochs
+    for j, site in enumerate(sites):
+        track = [(start + timedelta(seconds=clock_t), per_agent[j][1]) for clock_t, per_agent in log]
+        audit_rotation(res, "scenario", {**base, "lat": site[0], "lon": site[1], "alt": site[2]}, track, item)
     # TruthEphemeris rows of the ground agents: one per epoch, right Julian date, state = the site at that epoch
     rows = sc.database.getData(Query(TruthEphemeris).filter(TruthEphemeris.agent_id.in_(ids)))
     by_agent = {i: [] for i in ids}
@@ -616,9 +834,12 @@ def _run_scenario(res, item):
         )
         for k, (jd, eci) in enumerate(got[:n_epochs]):
             dt = start + timedelta(seconds=k * step)
-            nontriv = start.second != 0 or _crosses_midnight(start, k * step)
+            nontriv = start.second != 0 or _crosses_midnight(start, k * step) or _in_leap_window(dt)
             audit_state(res, "scenario/truth_rows", {**case, "elapsed": k * step, "row_jd": jd}, eci, dt, site, item,
                         nontrivial=nontriv, step=step, observe=False)
+        if ok_jd:
+            audit_rotation(res, "scenario/truth_rows", case,
+                           [(start + timedelta(seconds=k * step), eci) for k, (jd, eci) in enumerate(got)], item)
         res.observe([g[0] for g in got])
     res.states += len(log) * len(ids)
     res.transitions += max(len(log) - 1, 0) * len(ids)
@@ -818,5 +1039,6 @@ _RUNNERS.update(
     scenario=_run_scenario,
     midrun=_run_midrun,
     midrun_event=_run_midrun_event,
+    calendar=_run_calendar,
 )
 _RUNNERS["import"] = _run_import
